@@ -806,6 +806,22 @@ def readRecordT (bacteria : Bool) (len : Int) (circular : Bool) (bios : List Bio
   let r ← (post.filter (·.type == "region")).foldlM (fun r b => do addReg r (← Reg.fromBio r b)) r
   (post.filter (·.type == "aSModule")).foldlM (fun r b => do pure { r with others := r.others ++ [← plainFromBio b] }) r
 
+/-- `location_bridges_origin(location, allow_reversing=True)`: the answer and the location as the call leaves it —
+    the parts of a reverse-strand location are reversed *in place* for a second look and stay reversed when that
+    order reads as linear.  `Record.from_biopython`'s clean-up asks with `allow_reversing=False` (`bridgesOrigin`,
+    which never touches the location); this variant is here to say what the other choice would do. -/
+def bridgesOriginReversing : Loc → Bool × Loc
+  | .simple p => (false, .simple p)
+  | .compound ps =>
+    let l := Loc.compound ps
+    match l.strand with
+    | .fwd => (orderInvalid false ps, l)
+    | .rev =>
+      if orderInvalid true ps then
+        if !orderInvalid true ps.reverse then (false, .compound ps.reverse) else (true, l)
+      else (false, l)
+    | _ => (bridgesOrigin l, l)
+
 /-! ### prepeptides: the location is written as leader / core / tail and rebuilt from them
 
   `Prepeptide.to_biopython` cuts the location with `get_sub_location_from_protein_coordinates`
